@@ -13,6 +13,7 @@ from mc import alphabets as A
 from mc import gridx, seqx
 from mc.evidence import Result, Violation
 from mc.worlds import corner, make_wf
+from mc.monitors import pending_fall
 
 BWS = [2.0, 8.0, 30.0, 100.0]
 
@@ -377,6 +378,12 @@ def mod_sampling(ctx):
             exp = seq.get_duration(name, include_fall_time=True)
             if not (len(cs.amp) == len(cs.det) == len(cs.phase) == exp):
                 out.append((f"C14:modulated-length:{'eom-open' if ch.in_eom() else 'std'}", f"{name}: {len(cs.amp)} vs duration with fall time {exp}"))
+            # the same against the model's own account of the channel (end of the last instruction, or of the last pulse's fall time if later)
+            ref = pending_fall(ch)
+            ctx.act["modulated_length_against_the_model"] += 1
+            if len(cs.amp) != ref:
+                out.append((f"C14:modulated-arrays-do-not-end-at-the-duration-with-fall-time:{'eom-open' if ch.in_eom() else 'std'}",
+                            f"{name}: {len(cs.amp)} samples, schedule ends at {ch.end}, with the last pulse's fall time {ref}"))
             if not np.all(np.isfinite(np.asarray(cs.amp.as_array(detach=True)))):
                 out.append(("C14:modulated-non-finite", name))
         out += _sequence_level_values(ctx, seq, ms)
@@ -487,6 +494,9 @@ def run(tier, seed):
          A.render(l=None, eom=True), 2),
         (corner("unit8", prefix=[("declare", "g", "rydberg_global")], qubits=2, name="eom-channel-bw-240", bw=240, eom=dict(mod_bandwidth=40)),
          A.render(l=None, eom=True), 2),
+        # EOM mode enabled and disabled again on a still empty channel: a block of length zero at t = 0, then ordinary operation
+        (corner("real", prefix=[("declare", "g", "rydberg_global"), ("enable_eom", "g", 2.0, 0.5, -10.0, False), ("disable_eom", "g", False)],
+                qubits=2, name="zero-length-eom-block-at-0"), A.render(l=None, eom=True), 2),
         # a channel with SEVERAL EOM blocks (closed and re-opened; split by a change of setpoint): every block has its own falling edge
         (corner("real", prefix=[("declare", "g", "rydberg_global"), ("enable_eom", "g", 2.0, 0.5, -10.0, False), ("eom_pulse", "g", 52, 0.5, 0.0, "no-delay", False),
                                 ("disable_eom", "g", False)], qubits=2, name="second-eom-block-after-a-closed-one"),
@@ -506,7 +516,7 @@ def run(tier, seed):
                    "{0.1,1,20} x 11 amplitude shapes and 6 detuning shapes (incl. composites ending in a short hold, sign changes), EOM "
                    "bandwidths; sequences: every state of a depth 2-3 BFS incl. empty channels, channels without bandwidth, open EOM blocks")
     res.coverage = cov
-    res.required_activations = ["sequences_sampled", "sequences_with_an_empty_channel"]
+    res.required_activations = ["sequences_sampled", "sequences_with_an_empty_channel", "modulated_length_against_the_model"]
     res.assumptions = ["the reference output is a non-circular convolution with the Gaussian impulse response of the documented transfer "
                        "function exp(-f^2/fc^2), fc = bw/sqrt(ln 2), on a zero-padded input",
                        "peak = maximum absolute input sample"]
